@@ -1,12 +1,16 @@
 H("c20_ptr", "C20", "seq", ["harness/c20_ptr.cc"], sdk=[], cxxflags=["-fno-access-control"],
   args={"quick": [], "thorough": []},
-  what="real nostd::shared_ptr / nostd::unique_ptr vs std::shared_ptr / std::unique_ptr: two worlds of handles (two base handles, a derived handle, a std handle, "
-       "objects with a handle member) driven by every operation sequence up to the depth bound; same null-ness, pointee identity, comparisons and "
-       "destroyed objects after every operation, exactly-once destruction, ASan silent",
+  what="real nostd::shared_ptr / nostd::unique_ptr vs std::shared_ptr / std::unique_ptr: two worlds of handles (two base handles, a derived handle whose base "
+       "subobject is NOT at offset 0, a handle to const, std handles of the base and the derived type, objects with a handle member) driven by every operation "
+       "sequence up to the depth bound (65 operations incl. converting moves derived->base, T->const T, from / to std::unique_ptr<Derived>); same null-ness, "
+       "pointee identity, comparisons and destroyed objects after every operation, exactly-once destruction, ASan silent",
   design_ref="5/C20")
 H("c20_values", "C20", "seq", ["harness/c20_values.cc"], sdk=[],
   args={"quick": [], "thorough": []},
   what="real nostd::string_view vs std::string_view over all pairs of strings over {a,b,NUL,0xff} up to length 2 (thorough 3) x every operation and position "
        "(incl. out-of-range substr/compare), nostd::span (static and dynamic extents 0..3, every constructor) vs an index-checked slice model, "
-       "nostd::function_ref vs direct calls, nostd::variant vs std::variant over all operation sequences on two variants (8 alternatives incl. a throwing one)",
+       "nostd::function_ref vs direct calls (16 callable kinds), nostd::variant vs std::variant over all operation sequences on two variants (8 alternatives incl. a throwing one) "
+       "plus, per way of construction (emplace, in_place_type, in_place_index, initializer_list, valueless, throwing) x alternative, the const / rvalue / void / reference / ternary forms "
+       "of get, get_if and visit; the default-constructed (null data) string_view as an operand of every operation; static-extent span construction from a source of another size "
+       "(must terminate, run in a forked child); nostd::data / nostd::size / index_sequence against std",
   design_ref="5/C20")
